@@ -116,5 +116,12 @@ theorem timer_config_bounds (start interval leeway : Nat) (fc : TimeP.Clock) (u 
   ⟨TimerCfg.interval_bounds start interval leeway fc u m w hi,
    fun hs hv => TimerCfg.target_is_start start interval leeway fc u m w hs hv,
    fun ht => TimerCfg.deadline_bounds start interval leeway fc u m w hi hl ht⟩
+/-- **an interval source (`DISPATCH_SOURCE_TYPE_INTERVAL`) never fires at or before the moment it was created: its first fire is
+    strictly later, at most one interval later, and on an interval boundary of the uptime clock** - for every creation time and interval -/
+theorem interval_source_first_fire (now iv : Nat) (h : 0 < iv) :
+    now < TimerCfg.intervalStart now iv ∧ TimerCfg.intervalStart now iv ≤ now + iv ∧ TimerCfg.intervalStart now iv % iv = 0 :=
+  TimerCfg.intervalStart_spec now iv h
+/-- rounding to the closest boundary (seeded10/C11) puts the first fire in the past -/
+theorem interval_closest_rounding_fires_early : ∃ now iv, 0 < iv ∧ TimerCfg.closestStart now iv ≤ now := TimerCfg.closestStart_in_the_past
 
 end C11
